@@ -613,8 +613,17 @@ func parseDurationSTL(i string, framerate int) (d time.Duration, err error) {
 	}
 
 	// Set duration
-	d = time.Duration(hours)*time.Hour + time.Duration(minutes)*time.Minute + time.Duration(seconds)*time.Second + time.Duration(1e9*frames/framerate)*time.Nanosecond
+	d = time.Duration(hours)*time.Hour + time.Duration(minutes)*time.Minute + time.Duration(seconds)*time.Second + stlFramesDuration(frames, framerate)
 	return
+}
+
+// stlFramesDuration converts a number of frames to a duration. The duration is rounded up to the next nanosecond
+// so that formatting it gives the same number of frames back whatever the framerate (e.g. 30).
+func stlFramesDuration(frames, framerate int) time.Duration {
+	if framerate <= 0 {
+		return 0
+	}
+	return time.Duration((1e9*frames+framerate-1)/framerate) * time.Nanosecond
 }
 
 // formatDurationSTL formats a STL duration
@@ -816,7 +825,7 @@ func formatDurationSTLBytes(d time.Duration, framerate int) (o []byte) {
 
 // parseDurationSTLBytes parses a STL duration in bytes
 func parseDurationSTLBytes(b []byte, framerate int) time.Duration {
-	return time.Duration(uint8(b[0]))*time.Hour + time.Duration(uint8(b[1]))*time.Minute + time.Duration(uint8(b[2]))*time.Second + time.Duration(1e9*int(uint8(b[3]))/framerate)*time.Nanosecond
+	return time.Duration(uint8(b[0]))*time.Hour + time.Duration(uint8(b[1]))*time.Minute + time.Duration(uint8(b[2]))*time.Second + stlFramesDuration(int(uint8(b[3])), framerate)
 }
 
 type stlCharacterHandler struct {
